@@ -66,10 +66,10 @@ Print Assumptions c01_rejected_never_runs.
 (* a call that was let in and ends records exactly one outcome: success iff the caller's predicate holds
    of its error -- the default predicate (err == nil) for Do / DoWithFallback, the caller-supplied one for
    the two ...Acceptable variants, INCLUDING predicates that reject a nil error or accept non-nil errors;
-   a panic is a failure whatever the predicate; the outcome (error or panic) is what the caller gets back *)
+   a panic (with any value, nil included) is a failure whatever the predicate; the outcome (error or panic) is what the caller gets back *)
 Theorem c01_one_mark_per_call_let_in : forall w now k o,
   do_end w now k o = (add w now (if acceptable k o then 1 else 0), RRan o) /\
-  acceptable k Panics = false /\
+  acceptable k Panics = false /\ acceptable k PanicsNil = false /\
   (uses_default k = true -> (acceptable k o = true <-> o = OK)) /\
   (forall p, acceptable (KDoWithAcceptableP p) o = pred_ok p o /\ acceptable (KDoWithFallbackAcceptableP p) o = pred_ok p o) /\
   pred_ok PRejectsNil OK = false /\ pred_ok PAll UnacceptableErr = true.
